@@ -127,13 +127,6 @@ impl Park {
         }
     }
 
-    #[inline]
-    fn fast_wake_up(&self) {
-        if let Some(co) = self.wait_co.take() {
-            run_coroutine(co);
-        }
-    }
-
     /// park current coroutine with specified timeout
     /// if timeout happens, return Err(ParkError::Timeout)
     /// if cancellation detected, return Err(ParkError::Canceled)
@@ -211,16 +204,24 @@ impl EventSource for Park {
         });
         self.set_timeout_handle(timeout_handle);
 
-        let _g = self.delay_drop();
+        let g = self.delay_drop();
 
         // register the coroutine
         self.wait_co.store(co);
 
         // re-check the state, only clear once after resume
         if self.state.load(Ordering::Acquire) {
-            // here may have recursive call for subscribe
-            // normally the recursion depth is not too deep
-            return self.fast_wake_up();
+            if let Some(co) = self.wait_co.take() {
+                // we own the coroutine again and don't touch the park any more,
+                // release it before the coroutine runs on top of this frame:
+                // it may park on it again or finish and drop it, and `Park::drop`
+                // can't yield to let us finish when it runs on the worker stack
+                drop(g);
+                // here may have recursive call for subscribe
+                // normally the recursion depth is not too deep
+                run_coroutine(co);
+            }
+            return;
         }
 
         // if this thread was stalled for longer than the timeout between arming the
